@@ -728,9 +728,9 @@ type scriptOp struct {
 }
 
 // An EnvoyFilter that MERGEs max_direct_response_body_size_bytes into the route configurations of ONE workload.
-var sharedDefaultScript = []scriptOp{
-	{"create", okey{kind.EnvoyFilter, nsA, "e0"}, "workloadSelector:\n  labels:\n    app: s0\nconfigPatches:\n- applyTo: ROUTE_CONFIGURATION\n  match:\n    context: ANY\n  patch:\n    operation: MERGE\n    value:\n      max_direct_response_body_size_bytes: 1358\n"},
-	{"delete", okey{kind.EnvoyFilter, nsA, "e0"}, ""},
+var sharedDefaultScript = [][]scriptOp{
+	{{"create", okey{kind.EnvoyFilter, nsA, "e0"}, "workloadSelector:\n  labels:\n    app: s0\nconfigPatches:\n- applyTo: ROUTE_CONFIGURATION\n  match:\n    context: ANY\n  patch:\n    operation: MERGE\n    value:\n      max_direct_response_body_size_bytes: 1358\n"}},
+	{{"delete", okey{kind.EnvoyFilter, nsA, "e0"}, ""}},
 }
 
 func sharedDefaultWorld() (*world, error) {
@@ -760,4 +760,36 @@ func (w *world) scripted(o scriptOp) (wop, error) {
 	}
 	w.objs[o.Key] = c
 	return wop{Verb: o.Verb, Key: o.Key, Cfg: c, Spec: o.Spec}, nil
+}
+
+// ---------------------------------------------------------------- scripted scenario: known finding C01-eds-prev-scope-lost-across-pushes
+//
+// Two DestinationRule changes are already in the config store when the first of their two pushes builds its
+// PushContext (the second one's event is debounced into the next push).  ns1/d1 (client-namespace rule that
+// disables TLS towards s1.ns2.example) is deleted; the first push only carries the key of the unrelated rule
+// istio-system/d0.  The first push resets the sidecar scope (the deleted rule is already gone from it) but does not
+// consider the s1.ns2.example clusters affected (changed = {d0}); the second push (changed = {ns1/d1}) finds the rule
+// neither in the current nor in the previous sidecar scope.  The ClusterLoadAssignment is never resent.
+var prevScopeWorldOps = []scriptOp{
+	{"create", okey{kind.ServiceEntry, nsA, "s0"}, "hosts: [\"s0.ns1.example\"]\naddresses: [\"240.1.0.1\"]\nlocation: MESH_INTERNAL\nresolution: STATIC\nports:\n- number: 80\n  name: http\n  protocol: HTTP\nendpoints:\n- address: 10.1.0.1\n  labels:\n    app: s0\n    security.istio.io/tlsMode: istio\n"},
+	{"create", okey{kind.ServiceEntry, nsB, "s1"}, "hosts: [\"s1.ns2.example\"]\naddresses: [\"240.2.1.1\"]\nlocation: MESH_INTERNAL\nresolution: STATIC\nports:\n- number: 80\n  name: http\n  protocol: HTTP\nendpoints:\n- address: 10.2.1.1\n  labels:\n    app: s1\n    security.istio.io/tlsMode: istio\n- address: 10.2.1.2\n  labels:\n    app: s1\n    security.istio.io/tlsMode: istio\n"},
+	{"create", okey{kind.DestinationRule, nsA, "d1"}, "host: s1.ns2.example\ntrafficPolicy:\n  tls:\n    mode: DISABLE\n"},
+	{"create", okey{kind.DestinationRule, nsRoot, "d0"}, "host: s0.ns1.example\ntrafficPolicy:\n  loadBalancer:\n    simple: RANDOM\n"},
+}
+
+var prevScopeScript = [][]scriptOp{{
+	{"update", okey{kind.DestinationRule, nsRoot, "d0"}, "host: s0.ns1.example\ntrafficPolicy:\n  loadBalancer:\n    simple: LEAST_REQUEST\n"},
+	{"delete", okey{kind.DestinationRule, nsA, "d1"}, ""},
+}}
+
+func prevScopeWorld() (*world, error) {
+	w := newWorld()
+	for _, o := range prevScopeWorldOps {
+		c, err := w.mkCfg(o.Key, o.Spec)
+		if err != nil {
+			return nil, err
+		}
+		w.objs[o.Key] = c
+	}
+	return w, nil
 }
